@@ -1,13 +1,13 @@
 from ..core import Query
 
-U = ["librfn/bintree.c"]
+U = ["librfn/bintree.c", "librfn/util.c"]
 META = {
     "level": "model_checking",
     "functions": ["bintree_iterate_in_order", "bintree_iterate_pre_order", "bintree_iterate_post_order", "bintree_iterate_list", "bintree_next",
                   "bintree_iterate_complete", "in_order_iterator", "pre_order_iterator", "post_order_iterator", "list_left_iterator", "list_right_iterator",
                   "bintree_free", "bintree_free_left", "bintree_free_right", "bintree_traverse_{in,pre,post}_order, bintree_traverse_list (as order oracle)"],
     "units": ["librfn/bintree.c", "include/librfn/bintree.h"],
-    "bounds": {"quick": "every binary tree shape with 1..3 nodes (symbolic child indices) for the three iterators, abandoned-then-completed iteration and "
+    "bounds": {"quick": "every binary tree shape with 1..4 nodes (symbolic child indices) for the three iterators; 1..3 nodes for abandoned-then-completed iteration and "
                         "bintree_free / free_left / free_right (heap nodes, free() as deallocator); list iterator on left- and right-leaning spines "
                         "of up to 2 list nodes + 3 elements; the empty tree",
                "thorough": "shapes with 1..5 nodes for in-order / pre-order, 1..4 for post-order, completion and free; spines of up to 3 list nodes + 4 elements"},
@@ -20,7 +20,7 @@ META = {
 
 def queries(tier, kf):
     q = tier == "quick"
-    cfg = [("inorder", "h_inorder", 3 if q else 5, {}), ("preorder", "h_preorder", 3 if q else 5, {}), ("postorder", "h_postorder", 3 if q else 4, {}),
+    cfg = [("inorder", "h_inorder", 4 if q else 5, {}), ("preorder", "h_preorder", 4 if q else 5, {}), ("postorder", "h_postorder", 4 if q else 4, {}),
            ("complete-in", "h_complete", 3 if q else 4, {"DIR": 0}), ("complete-pre", "h_complete", 3 if q else 4, {"DIR": 1}),
            ("complete-post", "h_complete", 3 if q else 4, {"DIR": 2}),
            ("list", "h_list", 5 if q else 7, {}), ("free", "h_free", 3 if q else 4, {}),
